@@ -1260,7 +1260,7 @@ func c07Pipelines(c *Ctx) {
 	c07UntypedMapWitness(c)
 	n := 700
 	if c.Thorough {
-		n = 8000
+		n = 5000
 	}
 	for i := 0; i < n; i++ {
 		c07JudgePipe(c, c07GenPipe(c), "random")
